@@ -36,6 +36,7 @@ pub const SPELLINGS: &[(&str, Option<bool>)] = &[
     ("\"secret table\"", Some(false)),
 ];
 
+pub const INTERCEPT_QUERY_UPPER: &str = "SELECT Version_Info() AS v";
 pub const INTERCEPT_QUERY: &str = "select current_database() as a, current_schemas(false) as b";
 
 fn plugins(table_access: Option<bool>, intercept: Option<bool>) -> Option<Plugins> {
@@ -47,6 +48,11 @@ fn plugins(table_access: Option<bool>, intercept: Option<bool>) -> Option<Plugin
             schema: vec![vec!["a".into(), "text".into()], vec!["b".into(), "text".into()]],
             result: vec![vec!["${DATABASE}".into(), "{public}".into()], vec!["second".into(), "".into()]],
         },
+    );
+    // a second rule whose configured text is written with upper-case letters
+    queries.insert(
+        "1".to_string(),
+        Query { query: INTERCEPT_QUERY_UPPER.to_string(), schema: vec![vec!["v".into(), "text".into()]], result: vec![vec!["v1".into()]] },
     );
     Some(Plugins {
         intercept: intercept.map(|e| Intercept { enabled: e, queries }),
@@ -247,6 +253,37 @@ pub fn run(tier: &str) -> Part {
             other => add(vio("C19.intercepted-when-disabled", "C19.intercepted-when-disabled".into(), format!("{:?} with plugins disabled got {:?}", h, other)), json!({"sql": h})),
         }
     }
+    // the rule written with upper-case letters, asked in three spellings
+    let mut expected2 = Vec::new();
+    {
+        let mut b = 1i16.to_be_bytes().to_vec();
+        b.extend_from_slice(b"v");
+        b.push(0);
+        b.extend_from_slice(&0i32.to_be_bytes());
+        b.extend_from_slice(&0i16.to_be_bytes());
+        b.extend_from_slice(&25i32.to_be_bytes());
+        b.extend_from_slice(&(-1i16).to_be_bytes());
+        b.extend_from_slice(&(-1i32).to_be_bytes());
+        b.extend_from_slice(&0i16.to_be_bytes());
+        expected2.extend(wire::msg(b'T', &b));
+    }
+    expected2.extend(wire::data_row(&[b"v1"]));
+    expected2.extend(wire::command_complete("SELECT"));
+    expected2.extend(wire::ready(b'I'));
+    for h in [INTERCEPT_QUERY_UPPER.to_string(), INTERCEPT_QUERY_UPPER.to_lowercase(), INTERCEPT_QUERY_UPPER.to_uppercase()] {
+        evals += 1;
+        match verdict(&enabled, &q(&h)) {
+            Ok(Verdict::Intercept(b)) => {
+                if b != expected2 {
+                    add(vio("C19.intercept-rows", "C19.intercept-rows:upper-case-rule".into(), format!("intercepted {:?} but the reply differs from the configured rows", h)), json!({"sql": h}));
+                }
+            }
+            other => add(
+                vio("C19.not-intercepted", "C19.not-intercepted:upper-case-rule".into(), format!("{:?} matches the intercept rule {:?} but got {:?}", h, INTERCEPT_QUERY_UPPER, other)),
+                json!({"sql": h}),
+            ),
+        }
+    }
     for m in &misses {
         evals += 1;
         match verdict(&enabled, &q(m)) {
@@ -269,7 +306,7 @@ pub fn run(tier: &str) -> Part {
     part.extra.insert("parser_rejected_dont_care".into(), json!(rejected));
     part.extra.insert("dont_care".into(), json!(dont_care));
     part.rule = format!(
-        "{} statement shapes x {} identifier spellings (case, quoting, schema/catalog qualification, look-alikes) x positions (single, single padded to 300 B / 9 KB, first, second{}) x Query/Parse, under plugins enabled / disabled / absent; reference = PostgreSQL identifier folding on the last path component; intercept rule in 4 spellings and 5 near misses with byte-exact expected rows",
+        "{} statement shapes x {} identifier spellings (case, quoting, schema/catalog qualification, look-alikes) x positions (single, single padded to 300 B / 9 KB, first, second{}) x Query/Parse, under plugins enabled / disabled / absent; reference = PostgreSQL identifier folding on the last path component; two intercept rules (one written in lower case, one with upper-case letters) in 4 + 3 spellings and 5 near misses with byte-exact expected rows",
         SHAPES.len(),
         SPELLINGS.len(),
         if thorough { ", middle, third" } else { "" }
